@@ -142,3 +142,28 @@ PROPS["C12"] = dict(
     assumptions=["partial: 'every existing token belongs to an existing denom' and exactness of the PNFTs / PNFTsByDenomOwner listings are checked by the correspondence stream and the mon.c12 monitor after every history, not yet by a theorem (needs the invariant supply = #tokens)"],
     note="theorems are about the code after fixes 38809bd7 (F7), 463feecd (F8), 74c2443b (F9)",
 )
+
+TX_TRUSTED = [
+    "hand-written Lean model Panacea/Model/Tx.lean of baseapp validateBasicTxMsgs/runTx, the ante chain of app/ante.go (signer set, one valid signature with the current sequence per signer, fee from FeePayer() to the fee collector, sequence increments), runMsgs on a discardable branch and authz MsgExec/DispatchActions with generic grants (cosmos-sdk v0.47.12), tied by the tx stream: real signed transactions (direct and amino-JSON) through DeliverTx on a real app, balances/sequences/custom stores dumped after every transaction",
+    "not modelled: gas, memo, timeout height, tips, fee grants, multisig, gov/group execution paths, MsgGrant/MsgRevoke (grants are injected through the authz keeper)",
+    "signature validity is an input of the model (SigInfo.valid); the harness produces real secp256k1 signatures, bad signatures and wrong sequences",
+]
+TX_STREAM = [dict(name="tx", quick=40, thorough=600, thorough_seeds=3)]
+PROPS["C15"] = dict(
+    module="Panacea.Properties.C15",
+    obligations=["Panacea.C15.rejected_changes_nothing", "Panacea.C15.tx_atomic", "Panacea.C15.only_fee_moves",
+                 "Panacea.C15.fee_payer_is_first_signer", "Panacea.C15.addRecord_fee_payer_first",
+                 "Panacea.C15.custom_msgs_preserve_bank"],
+    streams=TX_STREAM, trusted=TX_TRUSTED,
+    assumptions=["total supply: the model has no mint/burn in the transaction path; the stream compares the real bank total-supply delta (must be 0) after every transaction"],
+)
+PROPS["C02"] = dict(
+    module="Panacea.Properties.C02",
+    obligations=["Panacea.C02.accepted_tx_signed_by_every_signer", "Panacea.C02.msg_signers_subset_tx_signers",
+                 "Panacea.C02.exec_requires_grant_or_self", "Panacea.C02.append_requires_listed_writer",
+                 "Panacea.C02.writer_list_changes_only_by_owner", "Panacea.C02.topic_created_under_signer",
+                 "Panacea.C02.delete_writer_immediate", "Panacea.C02.rejected_is_noop", "Panacea.C15.tx_atomic"],
+    streams=TX_STREAM + [dict(name="aol", quick=100, thorough=2000, thorough_seeds=2)],
+    trusted=TX_TRUSTED + AOL_TRUSTED,
+    assumptions=["gov- and group-executed messages are outside the model"],
+)
